@@ -12,7 +12,7 @@ from sa.source import AnalysisError, base_names, methods
 PROPERTY = "C34"
 RFC = "names/_rfc1982.py"
 Q = "twisted.names._rfc1982.SerialNumber"
-TECHNIQUE = "finite-domain evaluation of SerialNumber methods by a whitelisted AST interpreter"
+TECHNIQUE = "exhaustive evaluation over small rings justified by a structural width-uniformity check"
 EXPLANATION = (
     'SerialNumber.__init__/_convertOther/__eq__/__lt__/__gt__/__le__/__ge__/__add__ are read from the AST and '
     'evaluated by a small whitelisted interpreter (integers and floats, attribute reads, and/or/not, comparisons, try/except, '
@@ -25,6 +25,18 @@ EXPLANATION = (
     'constants are checked for widths 1..64/96/128 (n = 2^(bits-1)-1 and 2^(bits-1) exactly), and the five fields are written only in __init__. Not decided: the RFC '
     '4034 date-string helpers.'
 )
+RULE_KINDS = {
+    "rfc1982/base-is-inert": "structural",
+    "rfc1982/fields-immutable": "structural",
+    "rfc1982/width-uniform": "structural",
+    # decided by evaluating ALL pairs of widths 1..5; complete for every width when rfc1982/width-uniform holds (see its detail)
+    "rfc1982/compare-table": "finite-exhaustive",
+    "rfc1982/add-": "finite-exhaustive",
+    "rfc1982/compare-table-sampled": "bounded",      # same evaluation, emitted under this name when the uniformity argument could not be checked
+    "rfc1982/add-value-sampled": "bounded", "rfc1982/add-greater-sampled": "bounded", "rfc1982/add-refuses-large-sampled": "bounded",
+    "rfc1982/ring-constants": "bounded",              # the constructor evaluated for widths 1..64, 96, 128
+    "rfc1982/refuses-other-width": "bounded",
+}
 ASSUMPTIONS = [
     "SerialNumber's base class FancyStrMixin defines no comparison/arithmetic special method (checked: rule rfc1982/base-is-inert)",
     "the comparison expressions are piecewise constant between the evaluated boundary representatives for widths above 5 "
@@ -523,6 +535,82 @@ def _run(fn):
         raise AnalysisError("C34: unbounded recursion while interpreting SerialNumber")
 
 
+def width_uniform(ctx, mod, cls) -> Tuple[bool, str]:
+    """Structural argument that the small widths represent all widths: the width enters only as the exponent of a power of two, and
+    the comparison / addition methods (with the module-level helpers they call) combine the numbers only with +, -, % and order/equality
+    comparisons against 0/1, in integer arithmetic.  Every comparison is then a Boolean combination of atoms (+-(a-b) [mod M]) ~ (0 | H | M)
+    up to +-1, whose truth is constant on the cells sign(a-b) x cmp(|a-b|, H) (resp. cmp(d, 0), cmp(d, H) for d = (b-a) mod M); all those
+    cells are inhabited from width 3 on, so evaluating every pair of widths 1..5 decides every width.  -> (holds, why not)."""
+    ms = methods(cls)
+    init = ms.get("__init__")
+    if init is None or len(init.args.args) < 3:
+        return False, "__init__(self, number, serialBits) not found"
+    wname = init.args.args[2].arg
+    for n in ast.walk(init):
+        if isinstance(n, ast.Name) and n.id == wname and isinstance(n.ctx, ast.Load):
+            ok = False
+            cur, par = n, getattr(n, "_parent", None)
+            while par is not None and not isinstance(par, ast.stmt):
+                if isinstance(par, ast.BinOp) and isinstance(par.op, (ast.Pow, ast.LShift)) and par.right is cur and isinstance(par.left, ast.Constant) and par.left.value in (1, 2):
+                    ok = True
+                    break
+                if isinstance(par, ast.BinOp) and isinstance(par.op, (ast.Add, ast.Sub)) and isinstance(par.left if par.right is cur else par.right, ast.Constant):
+                    cur, par = par, getattr(par, "_parent", None)
+                    continue
+                break
+            if not ok and isinstance(par, (ast.Assign, ast.AnnAssign)) and par.value is n:
+                ok = True          # stored as it is (self._serialBits = serialBits)
+            if not ok:
+                return False, f"__init__ uses the width `{wname}` outside an exponent of 2: {src(getattr(n, '_parent', n))}"
+    # closure of the comparison / addition code
+    todo = [ms[m] for m in ("__init__", "_convertOther", "__eq__", "__lt__", "__gt__", "__le__", "__ge__", "__add__") if m in ms]
+    seen: List[ast.AST] = []
+    while todo:
+        f = todo.pop()
+        if any(f is x for x in seen):
+            continue
+        seen.append(f)
+        for c in ast.walk(f):
+            if isinstance(c, ast.Call) and isinstance(c.func, ast.Name):
+                d = mod.find(c.func.id)
+                if isinstance(d, ast.FunctionDef):
+                    todo.append(d)
+            if isinstance(c, ast.Call) and isinstance(c.func, ast.Attribute) and isinstance(c.func.value, ast.Name) and c.func.value.id in ("self", cls.name) and c.func.attr in ms:
+                todo.append(ms[c.func.attr])
+    for f in seen:
+        for n in ast.walk(f):
+            if isinstance(n, ast.Raise) or (isinstance(n, ast.JoinedStr)):
+                continue
+            inside_msg = any(isinstance(p, (ast.Raise, ast.JoinedStr)) for p in _parents(n))
+            if inside_msg:
+                continue
+            if isinstance(n, ast.BinOp):
+                if isinstance(n.op, (ast.Pow, ast.LShift)) and f is init:
+                    continue
+                if isinstance(n.op, ast.Mod) and isinstance(n.left, ast.Constant) and isinstance(n.left.value, (str, bytes)):
+                    continue
+                if not isinstance(n.op, (ast.Add, ast.Sub, ast.Mod, ast.FloorDiv if f is init else ast.Add)):
+                    return False, f"{f.name} combines numbers with `{src(n)}` (only +, - and % keep the comparison a function of the order type; true division leaves the integers)"
+                if isinstance(n.op, ast.FloorDiv) and not (isinstance(n.right, ast.Constant) and n.right.value == 2):
+                    return False, f"{f.name}: `{src(n)}`"
+            if isinstance(n, ast.Compare) and not all(isinstance(o, (ast.Lt, ast.LtE, ast.Gt, ast.GtE, ast.Eq, ast.NotEq, ast.Is, ast.IsNot)) for o in n.ops):
+                return False, f"{f.name} uses the comparison `{src(n)}`"
+            if isinstance(n, ast.Constant) and isinstance(n.value, (int, float)) and not isinstance(n.value, bool) and n.value not in (0, 1, 2, 32) and f is not init:
+                return False, f"{f.name} compares with the literal {n.value!r}"
+            if isinstance(n, ast.Constant) and isinstance(n.value, float):
+                return False, f"{f.name} uses the float literal {n.value!r}"
+            if isinstance(n, ast.Call) and isinstance(n.func, ast.Name) and n.func.id in ("float", "round", "divmod", "pow", "abs") and n.func.id != "abs":
+                return False, f"{f.name} calls {n.func.id}()"
+    return True, ""
+
+
+def _parents(n):
+    p = getattr(n, "_parent", None)
+    while p is not None:
+        yield p
+        p = getattr(p, "_parent", None)
+
+
 def check(ctx):
     mod = ctx.mod(RFC)
     cls = ctx.cls(RFC, "SerialNumber")
@@ -530,6 +618,20 @@ def check(ctx):
     for name in ("__init__", "_convertOther", "__eq__", "__lt__", "__gt__", "__le__", "__ge__", "__add__"):
         ctx.func(RFC, f"SerialNumber.{name}")
     ip = Interp(cls, mod)
+    with ctx.section("width uniformity"):
+        uniform, why = width_uniform(ctx, mod, cls)
+    try:
+        uniform
+    except NameError:
+        uniform, why = False, "not analysable"
+    if uniform:
+        ctx.ok("rfc1982/width-uniform", Q + " | <the width enters only through powers of two; numbers are combined only by +, -, %, comparisons>",
+               "every comparison atom is then constant on the cells sign(a-b) x cmp(|a-b|, halfRing) (or cmp((b-a) mod M, 0 / halfRing)); all cells are inhabited from width 3 on, "
+               "so the exhaustive evaluation of widths 1..5 below decides every width")
+    else:
+        ctx.note(f"rfc1982/width-uniform: shape argument not established ({why}); the comparison/addition tables count as bounded evidence (widths 1..5 exhaustively, boundary "
+                 "representatives up to 128 bits)")
+    sfx = "" if uniform else "-sampled"
     exhaustive = EXHAUSTIVE_THOROUGH if ctx.tier == "thorough" else EXHAUSTIVE_QUICK
     widths = tuple(sorted(set(exhaustive) | set(BOUNDARY_WIDTHS)))
     ctx.extra["widths_exhaustive"] = list(exhaustive)
@@ -628,7 +730,7 @@ def check(ctx):
         order = list(_OPS)
         for (meth, cell), outcomes in sorted(results.items(), key=lambda kv: (order.index(kv[0][0]), kv[0][1])):
             bad = [o for o in outcomes if o]
-            ctx.check(not bad, "rfc1982/compare-table", f"{Q}.{meth} | {cell}", (bad[0] + f" ({len(bad)} of {len(outcomes)} evaluated pairs of this cell disagree)") if bad else "",
+            ctx.check(not bad, "rfc1982/compare-table" + sfx, f"{Q}.{meth} | {cell}", (bad[0] + f" ({len(bad)} of {len(outcomes)} evaluated pairs of this cell disagree)") if bad else "",
                       detail=f"{len(outcomes)} pairs evaluated")
         ctx.extra["pairs_evaluated"] = evaluated
 
@@ -652,9 +754,9 @@ def check(ctx):
                     region = "n=maxAdd" if n == h - 1 else ("n=0" if n == 0 else ("0<n<maxAdd" if n < h - 1 else ("n=maxAdd+1" if n == h else "n>maxAdd+1")))
                     kind, got = _run(lambda: ip._dunder(x, "__add__", y))
                     if n <= h - 1:
-                        slot = add_res.setdefault(("rfc1982/add-value", region), [])
+                        slot = add_res.setdefault(("rfc1982/add-value" + sfx, region), [])
                         if n > 0:
-                            add_res.setdefault(("rfc1982/add-greater", region), [])
+                            add_res.setdefault(("rfc1982/add-greater" + sfx, region), [])
                         if kind == "raised":
                             slot.append(f"bits={bits}: SerialNumber({s}) + SerialNumber({n}) raises {got} although n <= 2^(bits-1)-1 = {h - 1}")
                             continue
@@ -666,13 +768,13 @@ def check(ctx):
                         else:
                             slot.append(None)
                         if n > 0:
-                            slot = add_res.setdefault(("rfc1982/add-greater", region), [])
+                            slot = add_res.setdefault(("rfc1982/add-greater" + sfx, region), [])
                             k2, g2 = _run(lambda: ip.compare(ast.Gt, got, x))
                             k3, g3 = _run(lambda: ip.compare(ast.Lt, x, got))
                             ok = k2 == "value" and g2 is True and k3 == "value" and g3 is True
                             slot.append(None if ok else f"bits={bits}: s={s}, n={n}: (s+n) > s is {g2!r} and s < (s+n) is {g3!r}; both must be True")
                     else:
-                        slot = add_res.setdefault(("rfc1982/add-refuses-large", region), [])
+                        slot = add_res.setdefault(("rfc1982/add-refuses-large" + sfx, region), [])
                         if kind == "raised" and got == "ArithmeticError":
                             slot.append(None)
                         elif kind == "raised":
